@@ -73,7 +73,7 @@ class URI(object):
     def _parseLocation(self, location, defaultPort):
         if not location:
             return
-        if location.startswith("./u:"):
+        if location.startswith("./u:") or location == "./u":
             self.sockname = location[4:]
             if (not self.sockname) or ':' in self.sockname:
                 raise errors.PyroError("invalid uri (location)")
@@ -102,7 +102,7 @@ class URI(object):
     @property
     def location(self):
         """property containing the location string, for instance ``"servername.you.com:5555"``"""
-        if self.host:
+        if self.host is not None:
             if ":" in self.host:  # ipv6
                 return "[%s]:%d" % (self.host, self.port)
             else:
